@@ -38,17 +38,18 @@ def _apply(dst, fn, old, new):
 
 
 def sensitivity(argv):
-    from .mutants import MUTANTS, NOFALSE, edits
+    from .mutants import MUTANTS, NOFALSE, HARD, edits
     ap = argparse.ArgumentParser()
     ap.add_argument("--prop", default=None)
     ap.add_argument("--name", default=None)
     ap.add_argument("--with-tests", action="store_true")
     ap.add_argument("--tier", default="quick")
+    ap.add_argument("--hard", action="store_true")
     a = ap.parse_args(argv)
     base = os.path.join(runner.scratch_root(), "mut")
     bad = 0
     rows = []
-    for kind, lst in (("mutant", MUTANTS), ("nofalse", NOFALSE)):
+    for kind, lst in ((("mutant", HARD),) if a.hard else (("mutant", MUTANTS), ("nofalse", NOFALSE))):
         for entry in lst:
             prop, name, eds = edits(entry)
             if a.prop and prop != a.prop:
